@@ -18,7 +18,7 @@ ID = 'C11'
 RULE = ('Hypothesis: one pattern per case (DSL tree <= 5 leaves, all features: empty-width, alternations with overlapping candidates, '
         'Any, line anchors, lookarounds) and an operation sequence of 4-30 steps over {compile, get_compiled_pattern(True|False), '
         'purge, has_match, is_exact_match, get_/iterate_matches, get_/iterate_matches_and_pos} on multi-line texts derived from the '
-        'pattern. Non-trivial = the sequence has >= 1 matching call before and >= 1 after a compile, >= 1 get_compiled_pattern(True), '
+        'pattern (one of them optionally tens of kilobytes long); every returned list is scribbled on after use. Non-trivial = the sequence has >= 1 matching call before and >= 1 after a compile, >= 1 get_compiled_pattern(True), '
         'and some text has >= 2 matches. Distinct = distinct serialised (tree, sequence).')
 ASSUMPTIONS = ['re.compile(str(p), MULTILINE|DOTALL) is the reference', 'the private cache attribute is inspected only if it exists (hasattr guard)']
 
@@ -92,6 +92,13 @@ def check_case(case, ctx):
                 got, want = p.get_matches_and_pos(t), [(m.group(0), *m.span()) for m in ms]
             else:
                 got, want = list(p.iterate_matches_and_pos(t)), [(m.group(0), *m.span()) for m in ms]
+            snapshot_got = list(got) if isinstance(got, list) else got
+            if isinstance(got, list):
+                # the returned list is the caller's: scribbling on it must not influence any later answer
+                got.reverse()
+                got.append('<scribble>')
+                del got[:1]
+                got = snapshot_got
             if got != want:
                 violation(f'result:{name}', case, f'{what} (pattern {str(p)!r}) step {step} {name}({t!r}) with cache '
                           f'{"compiled" if model_compiled else "empty"} = {got!r}; re gives {want!r}', ctx)
